@@ -150,12 +150,16 @@ def capture():
         r = orig(pattern, flags)
         f = sys._getframe(1)
         site = None
-        while f is not None:
-            fn = f.f_code.co_filename
-            if "/sansldap/" in fn:
-                site = os.path.basename(fn)[:-3].strip("_") + "_" + f.f_code.co_name.strip("_<>")
-                break
+        # the first frame outside the re package decides: library code itself, or base64 (called by the library with library data)
+        while f is not None and os.path.basename(os.path.dirname(f.f_code.co_filename)) == "re":
             f = f.f_back
+        via_base64 = False
+        if f is not None and os.path.basename(f.f_code.co_filename) == "base64.py":
+            via_base64 = True
+            while f is not None and "/sansldap/" not in f.f_code.co_filename:
+                f = f.f_back
+        if f is not None and "/sansldap/" in f.f_code.co_filename:
+            site = os.path.basename(f.f_code.co_filename)[:-3].strip("_") + "_" + f.f_code.co_name.strip("_<>") + ("_base64" if via_base64 else "")
         if site is not None:
             captured.append((site, pattern if isinstance(pattern, (str, bytes)) else pattern.pattern, int(flags)))
         return r
